@@ -231,7 +231,7 @@ impl Property for C06 {
         true
     }
     fn cases(&self, tier: Tier) -> u32 {
-        tier.pick(480, 6000)
+        tier.pick(4_000, 40_000)
     }
     fn strategy(&self, tier: Tier) -> BoxedStrategy<Self::Abs> {
         let small = (abs_xz(2, 2, 8, 60), Just(false), any::<u64>());
